@@ -610,6 +610,11 @@ class Node:
         Returns:
             the new :class:`~nutree.node.Node` instance
         """
+        if before is False:
+            before = None  # append (note that `False` is also an `int`)
+        elif before is True:
+            before = 0  # prepend
+
         if isinstance(child, self._tree.__class__):
             if deep is None:
                 deep = True
@@ -619,6 +624,14 @@ class Node:
             for n in topnodes:
                 self.add_child(n, before=before, deep=deep)
             return n  # need to return a node
+
+        # Check `before` now, so a refused call does not leave a registered,
+        # but unlinked node behind
+        if isinstance(before, Node) and before._parent is not self:
+            raise ValueError(
+                f"`before=node` ({before._parent}) "
+                f"must be a child of target node ({self})"
+            )
 
         source_node = None
         factory = self._tree._node_factory
@@ -648,22 +661,13 @@ class Node:
         else:
             node = factory(child, parent=self, data_id=data_id, node_id=node_id)
 
-        if before is True:
-            before = 0  # prepend
-
         children = self._children
         if children is None:
-            assert before in (None, True, int, False)
             self._children = [node]
         elif isinstance(before, int):
             children.insert(before, node)
         elif before:
-            if before._parent is not self:
-                raise ValueError(
-                    f"`before=node` ({before._parent}) "
-                    f"must be a child of target node ({self})"
-                )
-            idx = _index_of(children, before)  # raises ValueError
+            idx = _index_of(children, before)
             children.insert(idx, node)
         else:
             children.append(node)
